@@ -383,7 +383,7 @@ func (x *sbExec) oracle(after string) {
 		}
 	}
 	x.h.logMu.RUnlock()
-	if len(x.logsEp) > 1 {
+	if len(x.logsEp) > 1 && os.Getenv("VERIF_SB_NOSTRUCT") == "" { // (switch used to test the properties' own clauses in isolation)
 		x.setFail("second-partition-log", fmt.Sprintf("the handler registered %d different PartitionLog objects for %s/%d (%s): two logs hand out the same offsets and write the same segment keys", len(x.logsEp), sbTopic, sbPart, after))
 	}
 	x.w.mu.Lock()
